@@ -1,0 +1,21 @@
+// SPDX-FileCopyrightText: 2023 The Pion community <https://pion.ly>
+// SPDX-License-Identifier: MIT
+
+//go:build verif
+
+package rtp
+
+import "time"
+
+// VerifSetPacketizerClock replaces the clock a Packetizer created by
+// NewPacketizer reads for the abs-send-time extension. It only exists in
+// builds with the "verif" tag and is used by the external verification harness.
+func VerifSetPacketizerClock(p Packetizer, now func() time.Time) bool {
+	pp, ok := p.(*packetizer)
+	if !ok {
+		return false
+	}
+	pp.timegen = now
+
+	return true
+}
